@@ -427,6 +427,10 @@ func (e *Engine) TranslateFunc(key string) (res *funcResult) {
 		f.params[p.Name()] = sv
 		entry.Assign(&Cell{"old$" + p.Name(), c.S}, c)
 		t.cellTyp[c.Name] = p.Type()
+		if _, isSlice := p.Type().Underlying().(*types.Slice); isSlice && !th.bv {
+			// memory handed in by the caller was allocated before this activation
+			entry.Assume(Implies(ILt(th.SPtr(c), IntLit(embArrBase)), ILe(IAdd(th.SPtr(c), th.SCap(c)), t.allocTop())))
+		}
 	}
 	if len(fn.FreeVars) > 0 {
 		// closure verified on its own: free variables are unconstrained inputs
@@ -495,6 +499,13 @@ func (e *Engine) TranslateFunc(key string) (res *funcResult) {
 				ls.Decreases = f.specExpr(lc.Decreases.E, env).e
 			}
 		}
+		// allocation counters only grow (engine-level invariant, checked like any other)
+		if _, used := t.globals["allocTop"]; used {
+			ls.Invs = append(ls.Invs, NamedExpr{"$alloc-monotone", And(th.ALe(t.oldOf(t.allocTop()), t.allocTop()), th.ALt(t.allocTop(), th.AddrLit(addrLimit))), fc.Props})
+		}
+		if _, used := t.globals["objTop"]; used {
+			ls.Invs = append(ls.Invs, NamedExpr{"$obj-monotone", And(th.ALe(t.oldOf(t.objTop()), t.objTop()), th.ALt(t.objTop(), th.AddrLit(1<<16))), fc.Props})
+		}
 		f.blocks[h].Loop = ls
 	}
 	// pre block: declare globals, snapshot old state
@@ -549,6 +560,11 @@ func (e *Engine) TranslateFunc(key string) (res *funcResult) {
 				return And(ILe(IntLit(0), sel), ILt(sel, IntLit(256)))
 			}
 			return nil
+		}
+		if strings.HasSuffix(c.Name, "H_$wrFail") || strings.Contains(c.Name, "H_$wrFail$") {
+			// assumed of every sink: a failing Write does not report (or wrap) io.EOF
+			eof := IntLit(knownErrorGlobals["io.EOF"])
+			return And(Not(Eq(sel, eof)), Not(mk("errIs", SBool, sel, eof)))
 		}
 		name := strings.TrimPrefix(c.Name, "old$")
 		if i := strings.Index(name, "pre$"); i >= 0 {
